@@ -164,3 +164,8 @@ package surveyor
 //@ func (*survey).start
 //@   ensures expire > 0 ==> called("AfterFunc") && s.timer != nil
 //@   ensures s.ctx.surv == s && s.sock.surveys[s.id] == s
+// ---- generated Info contracts (tools/gen_info_contracts.py) ----
+//@ func (*socket).Info
+//@   ensures result.Self == 98 && result.Peer == 99 && result.SelfName == "surveyor" && result.PeerName == "respondent"
+//@
+// ---- end generated Info contracts ----
